@@ -169,6 +169,7 @@ type deferRec struct {
 }
 
 type Frame struct {
+	hvBound *Term // see havocBound
 	u        *Unit
 	fn       *ssa.Function
 	vals     map[ssa.Value][]*Term
